@@ -149,6 +149,53 @@ TRIGGERS = {
             'of "is None"',
             'asend() of a falsy non-None object into a decorated async '
             'generator: the body receives None'),
+ # ---- round 3: authors told to stay away from the files of rounds 1 and 2
+ 'S3-C01': ('redmain.py _reduce_hint_overrides: overrides skipped for hints '
+            'reached through another reduction',
+            'tower / hint_overrides={float: ...} + a hint that only reduces to '
+            'float (NewType over float, TypeVar bound float, Annotated[float, '
+            '"m"]) + an int: rejected'),
+ 'S3-C02': ('checkpep484585generic.py: the stack of pending generic bases is '
+            'rebound instead of extended',
+            'a user generic with several bases, a constraining builtin generic '
+            'before another user-defined generic (class Ints(list[int], '
+            'Marked)): no item check generated, every violating item accepted'),
+ 'S3-C03': ('errpep484585mapping.py: early "satisfied" when every child hint '
+            'is ignorable (Counter has an implicit int value hint)',
+            'Counter[Any] / Counter[object] + a Counter whose first value is '
+            'not an int: desynchronisation exception instead of the violation'),
+ 'S3-C04': ('utilfuncargiter.py iter_func_args: wrong start index after the '
+            'mandatory flexible block',
+            'a signature with positional-only, then mandatory flexible, then '
+            'further parameters: later names read shifted, values unchecked or '
+            'checked against a neighbour\'s hint'),
+ 'S3-C05': ('clawastassign.py: import-tracking of annotated assignments moved '
+            'behind the "nothing to check" early return',
+            'app: Celery = factory() under claw_is_pep526=False (or a bare '
+            'app: Celery then app = ...) + @app.task: @beartype lands above '
+            'the decorator-hostile decorator'),
+ 'S3-C06': ('clawpkgcontext.py: beartyping() exit removes the path hook '
+            'unconditionally if it installed it',
+            'nothing registered on entry, a package registered inside the '
+            'block: registered but the hook is gone after the block'),
+ 'S3-C07': ('fwdrefmeta.py: referent caches keyed by (scope name, hint name) '
+            'instead of the proxy',
+            'a closure factory invoked twice, the closure called while the '
+            'factory still runs: the second closure checks against the first '
+            'invocation\'s local class'),
+ 'S3-C08': ('datacodepep484.py: NoReturn template lost the call prefix '
+            '(await)',
+            'a coroutine function annotated NoReturn / Never (or '
+            'Coroutine[..., NoReturn]) that is actually awaited: the body '
+            'never runs, a return violation is raised for the coroutine '
+            'object'),
+ 'S3-C09': ('errpep484585mapping.py: break one level too deep - all pairs '
+            'visited when the value hint is ignorable',
+            'a conforming dict[str, Any] / Mapping[str, object] beside the '
+            'real culprit on the describing path: reads every key'),
+ 'S3-C10': ('datahintsignset.py: Iterator added to the quasi-iterable signs',
+            'Iterator[T] + an iterator that structurally is a Collection '
+            '(__len__ + __contains__): one item consumed per check'),
  'S2-C11': ('redpep484585itemsview.py: ItemsView child hints unpacked without '
             'the validating getter',
             'ItemsView subscripted with the wrong number of child hints '
@@ -273,6 +320,32 @@ HISTORY = {
            'the generator protocol forwarding); C10 now also sends falsy '
            'objects and spies into decorated generators and compares '
            'identity - caught by both',
+ 'S3-C02': 'MISSED at first contact (no user generic with several bases); '
+           'IntsT(list[int], Tagged[str]), TableT(dict[str, int], '
+           'Tagged[int]) and TaggedInts(Tagged[str], list[int]) added to '
+           'hintenv and the model - caught',
+ 'S3-C05': 'MISSED at first contact (C05 assumed "no decorator-hostile '
+           'third-party decorators"; the whole import-tracking feature was '
+           'unexercised); stand-in celery / fastmcp / langchain_core '
+           'packages, ten binding forms (direct call, alias, module '
+           'attribute, annotated assignment from a factory, bare annotation '
+           'then assignment, untracked control) and the placement rule '
+           '"below the leading run of beforelisted decorators" in the '
+           'by-hand restatement - caught',
+ 'S3-C07': 'MISSED at first contact (every program ran its enclosing '
+           'functions once); every nested case now runs them a second time '
+           'and appends the calls of that invocation to the trace - caught',
+ 'S3-C08': 'MISSED at first contact (coroutine hints were int-like only); '
+           'coroutines that never return normally annotated NoReturn / Never '
+           '/ Coroutine[..., NoReturn] - caught',
+ 'S3-C09': 'MISSED at first contact (leaves were always int / str); '
+           'ignorable leaves (Any, object) with the culprit in a sibling - '
+           'caught',
+ 'S3-C10': 'MISSED at first contact (no iterator that is structurally a '
+           'Collection); PyCollectionIterator spy. It showed that Iterable[T] '
+           'already consumes such objects on the unchanged tree (new open '
+           'finding, keyed by hint family) - the seeded Iterator[T] variant '
+           'is caught under its own key',
  'S2-C11': 'MISSED at first contact (wrong-arity forms existed for dict, '
            'list, tuple, type only); every subscriptable generic of '
            'collections.abc / collections / builtins is now subscripted with '
